@@ -99,9 +99,13 @@ def _work(item):
             continue
         rec = log[0]
         if c.family == "reduce":
-            leaves = [l for l in gencalls.leaves(c.ins[0]) if not (l.size == 1 and not l.marked)]
+            # without any bracket, brackets are placed automatically around every axis that does not appear in the
+            # output: that includes the anonymous axes written as numbers (a '1' of the input is not the '1' of the output)
+            automark = not any(l.marked for l in gencalls.leaves(c.ins[0]))
+            mk = (lambda l: l.marked or (automark and l.number))
+            leaves = [l for l in gencalls.leaves(c.ins[0]) if not (l.size == 1 and not mk(l))]
             want_shape = tuple(l.size for l in leaves)
-            want_axis = tuple(i for i, l in enumerate(leaves) if l.marked)
+            want_axis = tuple(i for i, l in enumerate(leaves) if mk(l))
             ax = rec["axis"]
             ax = tuple(ax) if isinstance(ax, (tuple, list)) else (ax,)
             if rec["n_pos"] != 1 or rec["shape"] != want_shape or ax != want_axis:
